@@ -159,21 +159,19 @@ def service_json(reqs, sync=()):
 # --------------------------------------------------------------------------------------------------------------------
 
 def graph_data(net):
-    """-> (uids, idx, edges, kinds): nodes in networkx order; edges [u, v, metres, pseudo] with integer data read from
-    the real edge weights: a fibre edge weighs its length in metres (must be integral), any other edge weighs 0.01"""
+    """-> (uids, idx, edges, kinds): nodes in networkx order; edges [u, v, metres, pseudo].  The integer data follow the
+    RULE the property rests on (an edge leaving a Fiber carries that fibre's length, any other edge one 0.01 unit) and
+    are read from the elements (Fiber.params.length), NOT from the edge attributes: whether the DiGraph's `weight`s obey
+    the rule is checked separately (props/c11.py check_edge_weights)."""
     from gnpy.core import elements as E
     nodes = list(net.nodes())
     uids = [n.uid for n in nodes]
     idx = {u: i for i, u in enumerate(uids)}
     edges = []
-    for u, v, d in net.edges(data=True):
-        w = d['weight']
+    for u, v in net.edges():
         if isinstance(u, E.Fiber):
-            m = int(round(w))
-            assert abs(w - m) < 1e-6, f'non-integral fibre length {w}'
-            edges.append([idx[u.uid], idx[v.uid], m, 0])
+            edges.append([idx[u.uid], idx[v.uid], int(round(u.params.length)), 0])
         else:
-            assert w == 0.01, f'unexpected pseudo-weight {w}'
             edges.append([idx[u.uid], idx[v.uid], 0, 1])
     kinds = []
     for n in nodes:
